@@ -354,6 +354,9 @@ type elH struct {
 	handed     []*elHanded
 
 	readerStale bool
+	// savedLoose: from the first pipelined GetUpdate until the next synchronous
+	// cycle has saved and acknowledged entries, see checkAllInner
+	savedLoose bool
 
 	trace  []string
 	labels map[string]bool
@@ -751,9 +754,31 @@ func (h *elH) checkAllInner(where string) {
 		}
 	}
 	// entriesToSave
-	if got, want := el.EntriesToSave(), m.toSave(); !elSameEntries(got, want) {
-		h.fail("entries-to-save-mismatch", "after %s: entriesToSave()=%s, model %s (model savedTo %d)",
-			where, elBrief(got), elBrief(want), m.savedTo)
+	if got, want := el.EntriesToSave(), m.toSave(); !h.savedLoose {
+		if !elSameEntries(got, want) {
+			h.fail("entries-to-save-mismatch", "after %s: entriesToSave()=%s, model %s (model savedTo %d)",
+				where, elBrief(got), elBrief(want), m.savedTo)
+		}
+	} else {
+		// Acknowledgements were (or may be) delivered late in this stretch of
+		// the case. No caller of dragonboat does that (engine.processSteps
+		// commits every Update before the node is stepped again), and the
+		// property does not fix WHICH late acknowledgement has to be honoured:
+		// one may only count if what it names is what the store durably holds.
+		// So the exact cursor is not compared; required is that entriesToSave()
+		// is a suffix (s, last] of the logical log and - invariant A below -
+		// that everything at or below s really is durable. The model adopts s.
+		if len(got) > 0 {
+			f := got[0].Index
+			if f <= m.floor || f > last || got[len(got)-1].Index != last ||
+				!elSameEntries(got, m.slice(f, last+1)) {
+				h.fail("entries-to-save-not-a-suffix", "after %s: entriesToSave()=%s is not a suffix of the log %s",
+					where, elBrief(got), elBrief(m.ents))
+			}
+			m.savedTo = f - 1
+		} else {
+			m.savedTo = last
+		}
 	}
 	// invariant A: nothing at or below savedTo differs from what is durable
 	{
@@ -1772,6 +1797,7 @@ func (h *elH) opCycle(pipelined bool) {
 		h.concurrent()
 	}
 	if pipelined {
+		h.savedLoose = true
 		h.label("pipelined-update")
 		if len(h.queue) > 1 {
 			h.label("several-updates-outstanding")
@@ -1780,6 +1806,16 @@ func (h *elH) opCycle(pipelined bool) {
 	}
 	// --- node.commitRaftUpdate ---
 	h.opAck(false)
+	if h.savedLoose && ud.UpdateCommit.StableLogTo > 0 && len(h.queue) == 0 {
+		// a fresh acknowledgement of a write that was just made: from here on
+		// the cursor is determined again
+		h.checkAll("commit")
+		if m.savedTo != ud.UpdateCommit.StableLogTo {
+			h.fail("fresh-ack-not-honoured", "Commit right after SaveRaftState of %s left entriesToSave() starting at %d",
+				elBrief(ud.EntriesToSave), m.savedTo+1)
+		}
+		h.savedLoose = false
+	}
 }
 
 // opAck delivers the acknowledgement (Peer.Commit) of the oldest outstanding Update.
